@@ -25,7 +25,12 @@ func init() {
 		Rules: []core.Rule{
 			{ID: "C05-R1", Title: "counter is the nonce, once per frame, no other writer", Decides: "replayed, reordered, dropped or duplicated frames fail authentication", Floor: 4, Run: c05r1},
 			{ID: "C05-R2", Title: "the wire length is the associated data and sizes the read", Decides: "a flipped length bit is detected", Floor: 3, Run: c05r2},
-			{ID: "C05-R3", Title: "direction keys are separate and mirrored", Decides: "reflection of the accessory's own frames is rejected", Floor: 5, Run: c05r3},
+			{ID: "C05-R3", Title: "direction keys are separate and mirrored", Decides: "reflection of the accessory's own frames is rejected", Floor: 5, Run: func(c *core.Ctx) {
+				c05r3(c)
+				// the two directions differ in the info label only: the key derivation and AEAD wrappers must route salt, info, key, nonce
+				// and associated data to the primitive in their positions (shared with C04-R3)
+				c04r3(c)
+			}},
 			{ID: "C05-R4", Title: "plaintext only from a checked open; the first failure is fatal", Decides: "nothing but an unmodified prefix is released; error no later than the first altered frame", Floor: 4, Run: c05r4},
 			{ID: "C05-R5", Title: "tag width", Decides: "full 16-byte tag is verified", Floor: 2, Run: c05r5},
 			{ID: "C05-R6", Title: "key derivation and AEAD wrappers are stateless; the ephemeral keys behind a session key are fresh per connection (shared with C03-R5)", Decides: "direction keys differ; a tag check is never skipped; frames recorded on one connection are not accepted on another", Floor: 4, Run: c05r6},
